@@ -268,3 +268,23 @@ META["C09"] = {
                "thorough": {"graphs": 200000, "node_values_checked": 2000000, "distinct_nontrivial": 80000}},
 }
 PY_SERVES.append("C09")
+
+
+META["C06"] = {
+    "level": "translation_validation",
+    "rule": "fully inlined graphs from G_inl (4-18 operations: foldable constant expressions, tuple / vector / zip / array-to-vector "
+            "proxies with getters, A2B/B2A chains incl. sign-changing ones followed by Truncate, duplicated sub-expressions with and "
+            "without annotations, dangling nodes, unused and named inputs, NOP[Send] nodes, Random / PRF nodes) given to "
+            "optimize_context; a case is one graph; non-trivial = the optimizer folded, merged or removed at least one node; distinct "
+            "by structural hash",
+    "assumptions": COMMON_ASSUMPTIONS + [
+        "randomness replay: Random / RandomPermutation nodes of the optimised graph are answered from the tape recorded on the "
+        "original graph, keyed by the original node's identity through the returned mapping",
+        "three-party comparison uses the executor of C02 with per-party tapes keyed the same way",
+        "an optimizer Err is counted, not alarmed",
+    ],
+    "floors": {"quick": {"optimizer_runs": 4000, "mapped_nodes_compared": 50000, "evaluation_pairs": 8000, "reloads": 4000,
+                         "three_party_pairs": 300, "distinct_nontrivial": 2000},
+               "thorough": {"optimizer_runs": 80000, "mapped_nodes_compared": 1000000, "evaluation_pairs": 200000, "reloads": 80000,
+                            "three_party_pairs": 6000, "distinct_nontrivial": 40000}},
+}
